@@ -191,6 +191,15 @@ func (c *ClientOptions) handleCallback() func(context.Context, *jmessage) []byte
 			}
 		}
 		bits, _ := rsp.toJSON()
+		if bits == nil {
+			// The reply cannot be encoded, e.g. the handler reported an *Error
+			// whose Data are not valid JSON. Report that to the server rather
+			// than handing an empty message to the channel.
+			bits, _ = (&jmessage{ID: req.ID, E: &Error{
+				Code:    InternalError,
+				Message: "callback reply cannot be encoded",
+			}}).toJSON()
+		}
 		return bits
 	}
 }
